@@ -27,3 +27,13 @@ package auth
 //@   ensures [no-metadata] !ret(metadata.FromIncomingContext, 1) ==> calls(validate) == 0 && calls(status.Error, 16, _) == 1 && result == ret(status.Error)
 //@   ensures [validated] calls(validate) == 1 ==> result == ret(validate) && len(md["app"]) > 0 && len(md["token"]) > 0 && arg(validate, 1) == md["app"][0] && arg(validate, 2) == md["token"][0] && len(md["app"][0]) > 0 && len(md["token"][0]) > 0
 //@   ensures [missing-rejected] calls(validate) == 0 ==> calls(status.Error, 16, _) == 1 && result == ret(status.Error)
+
+// ParseCredential: app and token are the FIRST values of the "app" and "token" metadata; if either is missing or
+// empty the credential is empty (and is then rejected by validate).
+//@ func ParseCredential
+//@   prop C04
+//@   let md = ret(metadata.FromIncomingContext, 0)
+//@   let complete = ret(metadata.FromIncomingContext, 1) && len(md["app"]) > 0 && len(md["token"]) > 0 && len(md["app"][0]) > 0 && len(md["token"][0]) > 0
+//@   ensures [reads-this-context] calls(metadata.FromIncomingContext, ctx) == 1
+//@   ensures [complete-taken] complete ==> result.App == md["app"][0] && result.Token == md["token"][0]
+//@   ensures [incomplete-empty] !complete ==> result.App == "" && result.Token == ""
